@@ -85,6 +85,11 @@ def generate(seed, tier, index=None):
         # scaffold-rich assembly (more than 200 read-carrying small contigs) through the multiprocess pipeline; only a sample of the fault family is run
         genome, frags = tw.many_small_contigs(w, method, n=w.randint(205, 240))
         mp, special = True, 'many-small-contigs'
+    elif tier == 'thorough' and index is not None and index % 40 == 23:
+        # more than 64 contigs of 100 kb or more: every one gets a job and a per-job file of its own (the merge step then has 65+ inputs);
+        # only the fault family around merge / sort / index / rename and a thin sample of kill points is run
+        genome, frags = tw.many_small_contigs(w, method, n=w.randint(66, 90), length=(100000, 101000))
+        mp, special = True, 'many-large-contigs'
     elif special in ('tail-rejects', 'placed-unmapped') and frags:
         # layouts in which a fault-free run must still deliver every record: a contig holding only placed-unmapped reads;
         # two small contigs sharing a job, the last of which holds only rejected fragments (with --no_rejects its task writes nothing)
@@ -251,7 +256,11 @@ def execute(case):
         plans = case.get('plans')
         if plans is None:
             plans = enumerate_plans(crossings, bres.get('seam_calls', {}), len(bres.get('jobs', [])), mode.get('mp'), p.get('tier', 'quick'), bytes_written)
-        if len(case['genome']) > 50 and case.get('plans') is None:
+        if p.get('special_layout') == 'many-large-contigs' and case.get('plans') is None:
+            probe('more_than_64_per_job_files')
+            plans = [x for x in plans if x['kind'] in ('fault', 'fault3') and x.get('seam') in ('pysam.merge', 'pysam.index', 'pysam.sort', 'os.rename', 'move') and x.get('nth', 0) in (0, 1)][:14] \
+                + plans[::max(1, len(plans) // 6)]
+        elif len(case['genome']) > 50 and case.get('plans') is None:
             plans = plans[::max(1, len(plans) // 24)]
         if case.get('slice') and case.get('plans') is None:     # slicing applies to the enumerated family only
             j, J = case['slice']
